@@ -68,7 +68,7 @@ impl Stream for Library
 	}
 	fn count(&self, tier: Tier) -> u64
 	{
-		tier.pick(400, 20_000)
+		tier.pick(3000, 20_000)
 	}
 	fn choice_len(&self) -> usize
 	{
